@@ -1,6 +1,7 @@
 package main
 
 import (
+	"math"
 	"encoding/json"
 	"flag"
 	"fmt"
@@ -176,6 +177,11 @@ func main() {
 				v.Replay = filepath.Join(dir, sanitize(v.Sig())+".json")
 				writeReplay(v, *prop)
 				v.Reproduced, v.ReplayOut = rp.Run(v)
+				if !v.Reproduced && v.UFOps > 0 && len(v.FloatInputs) > 0 {
+					// the model interprets the uninterpreted float operations arbitrarily; look for ordinates
+					// on which IEEE arithmetic shows the same failure (only a natively failing input is reported)
+					rp.concretiseUF(v, *prop)
+				}
 				k := matchKnown(known, *prop, v)
 				switch {
 				case !v.Reproduced:
@@ -447,6 +453,43 @@ func (r *replayer) Run(v *Violation) (bool, string) {
 		return strings.Contains(so, "SYM-GLOBAL-MODIFIED"), so
 	}
 	return false, so
+}
+
+// concretiseUF: the violation was found with float arithmetic uninterpreted, so the solver's ordinates
+// need not distinguish the two sides under IEEE arithmetic. Keep the model's shape/integer inputs and
+// try generic ordinate assignments; the first one that fails natively replaces the replay file.
+func (r *replayer) concretiseUF(v *Violation, prop string) {
+	orig := v.Inputs
+	seed := uint64(88172645463325252)
+	next := func() uint64 { seed ^= seed << 13; seed ^= seed >> 7; seed ^= seed << 17; return seed }
+	for attempt := 0; attempt < 24; attempt++ {
+		in := map[string]string{}
+		for k, val := range orig {
+			in[k] = val
+		}
+		for i, n := range v.FloatInputs {
+			var f float64
+			switch {
+			case attempt == 0:
+				f = float64(3*i + 1 + (i*i)%7)
+			case attempt%2 == 1:
+				f = float64(int64(next()%199) - 99)
+			default:
+				f = float64(int64(next()%2000001)-1000000) / 8
+			}
+			in[n] = fmt.Sprintf("0x%x", math.Float64bits(f))
+		}
+		v.Inputs = in
+		writeReplay(v, prop)
+		ok, out := r.Run(v)
+		if ok {
+			v.Reproduced, v.ReplayOut = true, out
+			v.Detail += fmt.Sprintf(" [ordinates concretised for IEEE arithmetic after %d attempt(s); shape inputs from the solver model]", attempt+1)
+			return
+		}
+	}
+	v.Inputs = orig
+	writeReplay(v, prop)
 }
 
 func replayOnly(verif, path string) int {
